@@ -1,1 +1,40 @@
 //! Real-host replay crate: everything lives in tests/ (see ../README.md).
+//!
+//! With cargo feature `codec` (test binary 3, `tests/codec.rs`, driver `../codec.py`) this lib additionally
+//! compiles the repository's interchain-token-service ABI codec **unmodified, straight from the repository
+//! files** as its own modules.  `abi.rs` refers to `crate::abi::alloc`, `crate::error::ContractError` and
+//! `crate::types::{..}`, so the three modules must sit at this crate's root under exactly these names.
+//! `abi` is a private module in the repository; the test reaches its public methods through `codec_api`.
+
+#[cfg(feature = "codec")]
+#[path = "@REPO@/contracts/interchain-token-service/src/abi.rs"]
+mod abi;
+#[cfg(feature = "codec")]
+#[path = "@REPO@/contracts/interchain-token-service/src/error.rs"]
+pub mod error;
+#[cfg(feature = "codec")]
+#[path = "@REPO@/contracts/interchain-token-service/src/types.rs"]
+pub mod types;
+
+/// The four public codec entry points of the repository's `abi.rs`, nothing else.
+/// (Its private helpers `to_i128`, `get_message_type`, `to_std_string`, `from_vec`, ... are reached only
+/// through these; they have their own obligations elsewhere.)
+#[cfg(feature = "codec")]
+pub mod codec_api {
+    pub use crate::error::ContractError;
+    pub use crate::types::{DeployInterchainToken, HubMessage, InterchainTransfer, Message};
+    use soroban_sdk::{Bytes, Env};
+
+    pub fn hub_encode(env: &Env, m: HubMessage) -> Result<Bytes, ContractError> {
+        m.abi_encode(env)
+    }
+    pub fn hub_decode(env: &Env, payload: &Bytes) -> Result<HubMessage, ContractError> {
+        HubMessage::abi_decode(env, payload)
+    }
+    pub fn message_encode(env: &Env, m: Message) -> Result<Bytes, ContractError> {
+        m.abi_encode(env)
+    }
+    pub fn message_decode(env: &Env, payload: &Bytes) -> Result<Message, ContractError> {
+        Message::abi_decode(env, payload)
+    }
+}
